@@ -93,6 +93,8 @@ pub struct Setup {
     pub writer: bool,
     pub pre_blocks: Vec<Vec<u8>>,
     pub tasks: Vec<Vec<Call>>,
+    /// storage the shared core is opened on (None: a freshly created core)
+    pub base: Option<Images>,
 }
 
 struct RunOut {
@@ -104,12 +106,19 @@ struct RunOut {
 
 /// One execution under a schedule given as forced switches (step -> task).
 fn run_once(setup: &Setup, forced: &[(usize, usize)], starve: bool) -> RunOut {
-    let disk = VDisk::new();
+    let disk = match &setup.base {
+        Some(img) => VDisk::from_images(img.clone()),
+        None => VDisk::new(),
+    };
     let kp = test_key_pair();
     let hc = block_on(async {
         let storage = disk.storage().await;
-        let kp2 = if setup.writer { kp.clone() } else { PartialKeypair { public: kp.public, secret: None } };
-        HypercoreBuilder::new(storage).key_pair(kp2).build().await.unwrap()
+        if setup.base.is_some() {
+            HypercoreBuilder::new(storage).open(true).build().await.unwrap()
+        } else {
+            let kp2 = if setup.writer { kp.clone() } else { PartialKeypair { public: kp.public, secret: None } };
+            HypercoreBuilder::new(storage).key_pair(kp2).build().await.unwrap()
+        }
     });
     let mut hc = hc;
     if setup.writer && !setup.pre_blocks.is_empty() {
@@ -139,60 +148,55 @@ fn run_once(setup: &Setup, forced: &[(usize, usize)], starve: bool) -> RunOut {
             }
         })));
     }
-    let waker = futures::task::noop_waker();
-    let mut cx = Context::from_waker(&waker);
+    // A FIFO executor: tasks that woke themselves (the backend yields once per storage
+    // operation) or were woken by an unlock go to the back of the run queue; a task blocked on
+    // the lock is not polled until it is woken.  A forced switch moves a task to the front.
+    struct Flag(std::sync::atomic::AtomicBool);
+    impl futures::task::ArcWake for Flag {
+        fn wake_by_ref(a: &std::sync::Arc<Self>) {
+            a.0.store(true, std::sync::atomic::Ordering::SeqCst);
+        }
+    }
     let n = futs.len();
-    let mut cur = 0usize;
+    let flags: Vec<std::sync::Arc<Flag>> = (0..n).map(|_| std::sync::Arc::new(Flag(std::sync::atomic::AtomicBool::new(false)))).collect();
+    let wakers: Vec<std::task::Waker> = flags.iter().map(|f| futures::task::waker(f.clone())).collect();
+    let mut queue: std::collections::VecDeque<usize> = (0..n).collect();
     let mut step = 0usize;
-    let mut idle_rounds = 0usize;
     let mut hung = false;
     while futs.iter().any(|f| f.is_some()) {
         if let Some((_, to)) = forced.iter().find(|(s, _)| *s == step) {
-            if futs[*to % n].is_some() {
-                cur = *to % n;
+            let to = *to % n;
+            if futs[to].is_some() {
+                queue.retain(|x| *x != to);
+                queue.push_front(to);
             }
         }
+        let cur = match queue.pop_front() {
+            Some(t) => t,
+            None => {
+                // nobody is runnable although calls are outstanding: a lost wake-up / deadlock
+                hung = true;
+                break;
+            }
+        };
         if futs[cur].is_none() {
-            cur = (0..n).map(|k| (cur + 1 + k) % n).find(|k| futs[*k].is_some()).unwrap();
+            continue;
         }
-        let ops0 = disk.ops();
-        let ev0 = log.borrow().len();
-        let locked0 = shared.0.try_lock().is_none();
+        flags[cur].0.store(false, std::sync::atomic::Ordering::SeqCst);
+        let mut cx = Context::from_waker(&wakers[cur]);
         let r = {
             let f = futs[cur].as_mut().unwrap();
             std::panic::catch_unwind(std::panic::AssertUnwindSafe(|| f.as_mut().poll(&mut cx)))
         };
         step += 1;
         match r {
-            Ok(Poll::Ready(())) => {
-                futs[cur] = None;
-                idle_rounds = 0;
-            }
+            Ok(Poll::Ready(())) => futs[cur] = None,
             Ok(Poll::Pending) => {
-                let locked1 = shared.0.try_lock().is_none();
-                let progressed = disk.ops() != ops0 || log.borrow().len() != ev0 || (!locked0 && locked1);
-                if progressed {
-                    idle_rounds = 0;
-                } else {
-                    // blocked on the lock: let somebody else run (not a preemption)
-                    idle_rounds += 1;
-                    if starve {
-                        // async_lock hands the mutex over in FIFO order only to a waiter that has
-                        // waited for more than 0.5 ms (otherwise the releasing task may take it
-                        // again at once): let that time pass and poll the waiter once more so
-                        // that it notices
-                        std::thread::sleep(std::time::Duration::from_micros(650));
-                        if let Some(f) = futs[cur].as_mut() {
-                            if let Ok(Poll::Ready(())) = std::panic::catch_unwind(std::panic::AssertUnwindSafe(|| f.as_mut().poll(&mut cx))) {
-                                futs[cur] = None;
-                            }
-                        }
-                        step += 1;
-                        if !futs.iter().any(|f| f.is_some()) {
-                            break;
-                        }
-                    }
-                    cur = (0..n).map(|k| (cur + 1 + k) % n).find(|k| futs[*k].is_some()).unwrap();
+                if !flags[cur].0.load(std::sync::atomic::Ordering::SeqCst) && starve {
+                    // blocked on the lock. async_lock lets the releasing task take the mutex
+                    // again at once unless a waiter has been waiting for more than 0.5 ms:
+                    // let that much time pass so that the fair hand-over is explored too
+                    std::thread::sleep(std::time::Duration::from_micros(650));
                 }
             }
             Err(p) => {
@@ -200,8 +204,12 @@ fn run_once(setup: &Setup, forced: &[(usize, usize)], starve: bool) -> RunOut {
                 futs[cur] = None;
             }
         }
-        if idle_rounds > 4 * n + 8 || step > 20_000 {
-            // nobody can make progress: deadlock / livelock
+        for u in 0..n {
+            if futs[u].is_some() && flags[u].0.load(std::sync::atomic::Ordering::SeqCst) && !queue.contains(&u) {
+                queue.push_back(u);
+            }
+        }
+        if step > 50_000 {
             hung = true;
             break;
         }
@@ -251,20 +259,57 @@ fn gen_writer_setup(rng: &mut StdRng, ntasks: usize, ncalls: usize) -> Setup {
         }
         tasks.push(calls);
     }
-    Setup { writer: true, pre_blocks: pre, tasks }
+    Setup { writer: true, pre_blocks: pre, tasks, base: None }
 }
 
-/// A replica shared by several tasks, each applying proofs that are valid in any order.
+/// One task appends a batch that is larger than anything the other calls produce while the
+/// other tasks append single blocks and read: a batch must land as one contiguous range.
+fn gen_batch_vs_append(rng: &mut StdRng, ntasks: usize) -> Setup {
+    let pre: Vec<Vec<u8>> = (0..rng.gen_range(0..2)).map(|_| small_block(rng)).collect();
+    let mut tasks = vec![];
+    for t in 0..ntasks {
+        let mut calls = vec![];
+        if t == 0 {
+            if rng.gen_bool(0.5) {
+                calls.push(Call::Info);
+            }
+            calls.push(Call::Batch((0..rng.gen_range(5..12)).map(|_| small_block(rng)).collect()));
+        } else {
+            for _ in 0..rng.gen_range(1..=2) {
+                calls.push(if rng.gen_bool(0.7) { Call::Append(small_block(rng)) } else { Call::Get(rng.gen_range(0..6)) });
+            }
+        }
+        tasks.push(calls);
+    }
+    Setup { writer: true, pre_blocks: pre, tasks, base: None }
+}
+
+/// A replica shared by several tasks.  The replica has synced part of the log before it is
+/// shared; the writer has grown since.  Each applier task applies a proof (block + upgrade)
+/// that was requested in that common base state, so the proofs are valid in any order; a reader
+/// task keeps the lock busy with reads of a block the replica holds.
 fn gen_replica_setup(rng: &mut StdRng, ntasks: usize) -> Setup {
     let (mut w, _) = Core::create("w", VDisk::new(), test_key_pair());
-    let n = rng.gen_range(2..=5u64);
-    let blocks: Vec<Vec<u8>> = (0..n).map(|i| vec![i as u8 + 1; 1 + (i % 3) as usize]).collect();
-    w.append_batch(&blocks);
+    let n1 = rng.gen_range(1..=3u64);
+    let n2 = n1 + rng.gen_range(1..=4u64);
+    let blocks: Vec<Vec<u8>> = (0..n2).map(|i| vec![i as u8 + 1; 1 + (i % 3) as usize]).collect();
+    w.append_batch(&blocks[..n1 as usize]);
+    // base state of the replica: block 0 and the first n1 blocks' tree
+    let kp = test_key_pair();
+    let (mut base, _) = Core::create("r", VDisk::new(), PartialKeypair { public: kp.public, secret: None });
+    let p0 = w
+        .create_proof(Some(RequestBlock { index: 0, nodes: 0 }), None, None, Some(RequestUpgrade { start: 0, length: n1 }))
+        .unwrap()
+        .unwrap();
+    base.apply_proof(&p0);
+    w.append_batch(&blocks[n1 as usize..]);
     let mut tasks = vec![];
-    for _ in 0..ntasks {
-        let i = rng.gen_range(0..n);
+    let appliers = (ntasks.max(2) - 1).max(2).min(3);
+    for _ in 0..appliers {
+        let i = rng.gen_range(0..n2);
+        let nodes = base.missing_nodes(i).unwrap_or(0);
         let p = w
-            .create_proof(Some(RequestBlock { index: i, nodes: 0 }), None, None, Some(RequestUpgrade { start: 0, length: n }))
+            .create_proof(Some(RequestBlock { index: i, nodes }), None, None, Some(RequestUpgrade { start: n1, length: n2 - n1 }))
             .unwrap()
             .unwrap();
         let meta = json!({"o":"proof","src":"w","blk":i,"hasup":true,"shape":proof_shape(&p)});
@@ -276,7 +321,8 @@ fn gen_replica_setup(rng: &mut StdRng, ntasks: usize) -> Setup {
         }
         tasks.push(calls);
     }
-    Setup { writer: false, pre_blocks: blocks, tasks }
+    tasks.push((0..rng.gen_range(1..=3)).map(|_| Call::Get(0)).collect());
+    Setup { writer: false, pre_blocks: blocks, tasks, base: Some(base.disk.images()) }
 }
 
 pub fn run(args: &[String]) {
@@ -288,6 +334,7 @@ pub fn run(args: &[String]) {
     let max_sched: usize = get("--max-schedules", "400").parse().unwrap();
     let ntasks_max: usize = get("--tasks", "2").parse().unwrap();
     let ncalls: usize = get("--calls", "2").parse().unwrap();
+    let kind = get("--kind", "all");
     let only: Option<usize> = args.iter().position(|a| a == "--only").and_then(|i| args.get(i + 1).and_then(|v| v.parse().ok()));
     let rec = Rec::new(&out, 60);
     for r in 0..runs {
@@ -296,7 +343,11 @@ pub fn run(args: &[String]) {
         }
         let mut rng = StdRng::seed_from_u64(seed.wrapping_mul(7_368_787).wrapping_add(r as u64));
         let ntasks = rng.gen_range(2..=ntasks_max.max(2));
-        let setup = if r % 3 == 2 { gen_replica_setup(&mut rng, ntasks) } else { gen_writer_setup(&mut rng, ntasks, ncalls) };
+        let setup = match (kind.as_str(), r % 4) {
+            ("replica", _) | ("all", 2) => gen_replica_setup(&mut rng, ntasks),
+            ("batch", _) | ("all", 3) => gen_batch_vs_append(&mut rng, ntasks),
+            _ => gen_writer_setup(&mut rng, ntasks, ncalls),
+        };
         // baseline run to learn the number of steps, then forced switches at every position
         let base = run_once(&setup, &[], false);
         let mut schedules: Vec<Vec<(usize, usize)>> = vec![vec![]];
@@ -327,13 +378,13 @@ pub fn run(args: &[String]) {
         }
         schedules.truncate(max_sched.max(1));
         let mut seen = std::collections::HashSet::new();
-        // the same schedules once more with starved waiters (FIFO hand-over of the mutex), for the
-        // run-until-blocked schedule and every single forced switch
-        let nstarve = schedules.iter().filter(|s| s.len() <= 1).count().min(max_sched / 4 + 1);
+        // every schedule with <= 1 forced switch also with starved waiters (fair hand-over of the
+        // mutex); schedules with two forced switches alternate between the two modes
         let all: Vec<(Vec<(usize, usize)>, bool)> = schedules
             .iter()
-            .map(|s| (s.clone(), false))
-            .chain(schedules.iter().filter(|s| s.len() <= 1).take(nstarve).map(|s| (s.clone(), true)))
+            .enumerate()
+            .map(|(k, s)| (s.clone(), s.len() >= 2 && k % 2 == 0))
+            .chain(schedules.iter().filter(|s| s.len() <= 1).map(|s| (s.clone(), true)))
             .collect();
         for (si, (sch, starve)) in all.iter().enumerate() {
             let o = run_once(&setup, sch, *starve);
@@ -351,7 +402,7 @@ pub fn run(args: &[String]) {
             }
             rec.count("distinct_histories", 1);
             rec.emit(json!({"e":"reset","gen":{"drv":"shared","args":format!(
-                "shared --seed {seed} --runs {runs} --preemptions {k} --max-schedules {max_sched} --tasks {ntasks_max} --calls {ncalls} --only {r}")},
+                "shared --seed {seed} --runs {runs} --preemptions {k} --max-schedules {max_sched} --tasks {ntasks_max} --calls {ncalls} --kind {kind} --only {r}")},
                 "schedule": sch.iter().map(|(a, b)| json!([a, b])).collect::<Vec<_>>(), "sched_no": si}));
             for e in o.events {
                 rec.emit(e);
